@@ -64,16 +64,18 @@ namespace ipr {
    // (e.g. parenthesize and start over).  If the node comes back to the same fallback
    // without any other rule having consumed it, then no rule supports it: report that
    // as the documented logic error instead of recursing without bound.
+   // Each fallback rule has its own marker: a node re-dispatched by one rule may legitimately
+   // reach another fallback rule (e.g. a parenthesized class name is then printed by its name).
    struct Fallback_guard {
-      Fallback_guard(Printer& p, const Node& n) : pp{p}, saved{p.fallback_node}
+      Fallback_guard(const Node*& marker, const Node& n) : slot{marker}, saved{marker}
       {
          if (saved == &n)
             throw std::logic_error(std::string("no printing rule for ") + typeid(n).name());
-         pp.fallback_node = &n;
+         slot = &n;
       }
-      ~Fallback_guard() { pp.fallback_node = saved; }
+      ~Fallback_guard() { slot = saved; }
    private:
-      Printer& pp;
+      const Node*& slot;
       const Node* saved;
    };
 
@@ -419,7 +421,7 @@ namespace ipr {
          }
          void visit(const Expr& e) override
          {
-            Fallback_guard guard { pp, e };
+            Fallback_guard guard { pp.fallback_node, e };
             pp << token('(') << xpr_expr(e) << token(')');
          }
          void visit(const Decl& d) override { d.name().accept(*this); }
@@ -1496,7 +1498,7 @@ namespace ipr {
       void visit(const Type& t) final
       {
          // FIXME: Check.
-         Fallback_guard guard { pp, t };
+         Fallback_guard guard { pp.fallback_type, t };
          pp << xpr_name(t.name());
       }
 
